@@ -551,6 +551,38 @@ type badInput struct {
 	base    string
 }
 
+// braceDepth counts the braces still open at the end of src, outside comments and string literals.
+func braceDepth(src string) int {
+	d := 0
+	for i := 0; i < len(src); i++ {
+		switch {
+		case strings.HasPrefix(src[i:], "//"):
+			for i < len(src) && src[i] != '\n' {
+				i++
+			}
+		case strings.HasPrefix(src[i:], "/*"):
+			j := strings.Index(src[i+2:], "*/")
+			if j < 0 {
+				return d
+			}
+			i += j + 3
+		case src[i] == '"':
+			i++
+			for i < len(src) && src[i] != '"' {
+				if src[i] == '\\' {
+					i++
+				}
+				i++
+			}
+		case src[i] == '{':
+			d++
+		case src[i] == '}':
+			d--
+		}
+	}
+	return d
+}
+
 func malformed(r *rand.Rand, progs []program, idlDir string) {
 	var inputs []badInput
 	bases := []program{}
@@ -572,7 +604,8 @@ func malformed(r *rand.Rand, progs []program, idlDir string) {
 			if o == 0 {
 				continue
 			}
-			inputs = append(inputs, badInput{kind: "truncate-at-token", src: p.Src[:o], mustErr: o > bodyStart && o <= lastClose, base: p.Name})
+			// (a file with several modules cut between two of them is a complete program)
+			inputs = append(inputs, badInput{kind: "truncate-at-token", src: p.Src[:o], mustErr: o > bodyStart && o <= lastClose && braceDepth(p.Src[:o]) > 0, base: p.Name})
 		}
 		for k := 0; k < 12 && len(offs) > 3; k++ {
 			i := 1 + r.Intn(len(offs)-2)
